@@ -370,7 +370,23 @@ class Interp:
         if name in ('True', 'False', 'None'):
             return K({'True': True, 'False': False, 'None': None}[name])
         if m is not None and name in m.unindexed and name not in m.consts:
-            raise Fail(f'module-level name {name} of {module} is bound by control flow the front end does not index')
+            # bound by module-level control flow (try/except fallbacks, if/else, loops filling tables): those statements are interpreted,
+            # once, in the order they stand in the module
+            ran = self.__dict__.setdefault('_module_init', {})
+            if module not in ran:
+                ran[module] = 'running'
+                fr = Frame(module)
+                for st in m.dynamic_stmts:
+                    self.stmt(st, fr)
+                cache = self.__dict__.setdefault('_globals', {})
+                for k, v in fr.vars.items():
+                    cache.setdefault((module, k), v)
+                ran[module] = 'done'
+            elif ran[module] == 'running':
+                raise Fail(f'module-level name {name} of {module} is used while the module-level statements that bind it run')
+            if (module, name) in self.__dict__.get('_globals', {}):
+                return self._globals[(module, name)]
+            raise Fail(f'module-level name {name} of {module} is not bound by the control flow that should bind it')
         import builtins as _bi
         if not hasattr(_bi, name) and name not in ('__name__', '__file__', '__doc__', '__class__', 'reveal_type'):
             raise Fail(f'name {name} is not defined in module {module}')
@@ -1200,6 +1216,10 @@ class Interp:
         if isinstance(v, Ext):
             return Ext(v.dotted + '.' + a)
         if isinstance(v, Builtin):
+            import builtins as _bi
+            ty = getattr(_bi, v.name, None) if '.' not in v.name else None
+            if isinstance(ty, type) and not hasattr(ty, a):
+                raise RaiseEx('AttributeError', f"type object '{v.name}' has no attribute '{a}'", n)
             return Builtin(v.name + '.' + a)
         if isinstance(v, FuncRef):
             return Sym(f'func.{a}')
